@@ -2,7 +2,7 @@
 (TLC enumerates route tables and evaluates the reference for every request of a fixed universe)
 -> replay on router.NewRouter() (public API) and on api.Server (engine.bindRoutes + not-found
 handler)."""
-import json
+import json, os
 from vlib import core
 
 PKG = "./api/router"
@@ -70,7 +70,7 @@ PLANS = {
 def mc(ctx):
     K = {k: v for k, v in PLANS["multi2"].items() if k in ("Methods", "BadMethods", "ReqMethods", "Lits", "ParNames",
                                                            "MaxDepth", "ReqToks", "DirtToks")}
-    K.update(Methods=GP, ReqMethods='{"GET","POST","DELETE"}')
+    K.update(Methods=GP, ReqMethods='{"GET","DELETE"}')
     cfg = core.render_cfg(spec="Spec", constants=K,
                           invariants=["TypeOK", "Partition", "CandidatesSound", "Complete", "LiteralWins", "CleanStable",
                                       "QuietIs404"],
@@ -99,6 +99,9 @@ def methods_env(plan):
 
 
 def one(ctx, binp, ebinp, name, plan, engine_every, **kw):
+    only = os.environ.get("VERIF_PLANS")  # development aid: run a subset of the plans
+    if only and name.split("-")[0] not in only.split(","):
+        return
     header, cases = gen(ctx, name, plan, **kw)
     path, cnt = ctx.write_cases(name + ".ndjson", [header] + cases)
     ctx.samples += core.sample_of(cases[len(cases) // 2:], 1)
@@ -112,6 +115,14 @@ def one(ctx, binp, ebinp, name, plan, engine_every, **kw):
 
 
 def run(ctx):
+    ctx.assumptions += [
+        "patterns that repeat a parameter name, unclean pattern spellings at registration and '..' in request paths "
+        "are not generated (the statement does not fix their meaning)",
+        "where several parameterised patterns match, any of them (with its own binding) is accepted",
+        "an unsupported method is represented by 'FOO'; only error / no error is compared for Handle",
+        "engine tier: api.Server with Config{} and the default middleware chain; bindRoutes stops at the first "
+        "rejected route, so tables containing a rejected registration are compared on the bind error only",
+    ]
     mc(ctx)
     binp = ctx.go_build(PKG, OVERLAY, name="c03drv")
     ebinp = ctx.go_build(EPKG, EOVERLAY, name="c03eng")
